@@ -277,8 +277,27 @@ func runC04Enum(src sim.Source, o Opts, res *Result) {
 			} else if _, err := ro.Update("GET", "zz", nil); !errors.Is(err, fox.ErrReadOnlyTxn) {
 				t1fail = fmt.Sprintf("Update with invalid arguments on a read-only transaction returned %v, want ErrReadOnlyTxn", err)
 			}
-			ro.Commit()
-			ro.Abort()
+			// Commit and Abort have nothing to settle on a read-only transaction: it stays the read-only view it was
+			for _, end := range []string{"Commit", "Abort"} {
+				if t1fail != "" {
+					break
+				}
+				if end == "Commit" {
+					ro.Commit()
+				} else {
+					ro.Abort()
+				}
+				func() {
+					defer func() {
+						if p := recover(); p != nil {
+							t1fail = fmt.Sprintf("a read-only transaction used after its (no-op) %s panicked: %v", end, p)
+						}
+					}()
+					if d := refusesEveryWrite(w, ro, pool); d != "" {
+						t1fail = fmt.Sprintf("on a read-only transaction after its (no-op) %s: %s", end, d)
+					}
+				}()
+			}
 			if t1fail != "" {
 				return
 			}
